@@ -376,6 +376,32 @@ def generate(repo, contracts, twin=False, only=None):
     rfc = open(os.path.join(contracts, "rfc.rs")).read()
     lemmas_path = os.path.join(contracts, "lemmas.rs")
     lemmas = open(lemmas_path).read() if os.path.exists(lemmas_path) else ""
+    # lemma / verified-program functions: `// @LEMMA C02 C04` on the line before `pub proof fn name` / `pub fn name`
+    meta["lemma_props"] = {}
+    if lemmas:
+        out_l = []
+        pending = None
+        lines_l = lemmas.split("\n")
+        for no, line in enumerate(lines_l, 1):
+            ml = re.match(r"\s*// @LEMMA\s+(.*)$", line)
+            if ml:
+                pending = ml.group(1).split()
+                continue
+            mf = re.match(r"\s*pub (?:proof )?fn (\w+)", line)
+            if mf and pending is not None:
+                key = "lemmas::" + mf.group(1)
+                meta["lemma_props"][key] = pending
+                out_l.append("// @F:%s contracts/lemmas.rs:%d" % (key, no))
+                ctx.fn_inventory.append(key)
+                pending = "BODY:" + key
+                out_l.append(line)
+                continue
+            out_l.append(line)
+            if isinstance(pending, str) and pending.startswith("BODY:") and line.strip() == "{":
+                if twin:
+                    out_l.append("        assert(false); // @TWIN:%s" % pending[5:])
+                pending = None
+        lemmas = "\n".join(out_l)
 
     MODHDR = "#[allow(unused_imports)] use vstd::prelude::*;\n#[allow(unused_imports)] use crate::vp::*;\n#[allow(unused_imports)] use crate::rfc::*;\n#[allow(unused_imports)] use vstd::string::*;\n#[allow(unused_imports)] use vstd::std_specs::iter::IteratorSpec;\n"
     parts = []
@@ -424,7 +450,7 @@ def generate(repo, contracts, twin=False, only=None):
     meta["label_lines"] = label_lines
     meta["twin_lines"] = twin_lines
     meta["fn_inventory"] = ctx.fn_inventory
-    meta["contracted"] = sorted(k for k, e in ov.fns.items() if e.used)
+    meta["contracted"] = sorted([k for k, e in ov.fns.items() if e.used] + list(meta["lemma_props"].keys()))
     unused = sorted(k for k, e in ov.fns.items() if not e.used and (only is None))
     unused_inj = sorted(k for k in ov.injects if k not in ov.inject_used and (only is None))
     unused_items = sorted(k for k, e in ov.items.items() if not e["used"] and (only is None))
